@@ -1,3 +1,8 @@
+/-
+  K7 — the simulation between the client model (Sio/Model/Client.lean) and the server's view
+  (Sio/Model/ClientSpec.lean): relation `R`, one lemma per packet kind, then transport events,
+  reaction lists, the connect window, API calls and whole histories (`sim_run`).
+-/
 import Sio.Model.ClientSpec
 import Sio.Lemmas.Client
 namespace Sio.Client
@@ -279,7 +284,7 @@ theorem sim_disconnect (cfg : Cfg) {q : List Ns} {c : Cli} {v : View} (h : R .li
       unfold handleDisconnect
       have hemp' : (dropNs c.namespaces (nsOr nsp)).isEmpty = true := by rw [hns]; exact hemp
       have hnil : dropNs c.namespaces (nsOr nsp) = [] := by simpa using hemp'
-      simp [hc, hemp', eioDisconnect, onEioDisconnect, heio, hnil]
+      simp [hc, eioDisconnect, onEioDisconnect, heio, hnil]
     rw [heq]
     simp only [hemp, if_true]
     refine ⟨?_, by simp⟩
@@ -416,7 +421,7 @@ theorem sim_ev (cfg : Cfg) {m : Mode} {q : List Ns} {c : Cli} {v v' : View} {e :
     have hup0 : up = true := hup
     subst hup0
     simp only [Bool.not_true, Bool.false_eq_true, if_false] at hs
-    have heio : c.eio = .connected := by have := h.eio; simp [hup] at this; exact this
+    have heio : c.eio = .connected := by have := h.eio; simp at this; exact this
     cases e with
     | lost =>
       simp only at hs
